@@ -225,10 +225,16 @@ impl<'a> RCase<'a> {
                                     let tracked: Vec<u64> = before.nonempty.iter().cloned().filter(|p| *p <= largest).collect();
                                     let complete = tracked.iter().all(|p| covered.contains(p));
                                     if !complete { self.n_gen_cut += 1; self.sink.branch("gen:ok_cut"); } else { self.sink.branch("gen:ok_complete"); }
-                                    // room: a frame acknowledging every tracked number needs at most this many bytes
-                                    let full = 1 + 8 + 8 + 8 + 8 + 16 * (tracked.len() + 1);
-                                    if cap > full && !complete {
-                                        self.sink.monitor_fail("ack_incomplete_with_room", &format!("capacity {} (> {}) but tracked received numbers ≤ {} are missing from the frame", cap, full, largest));
+                                    // room: the frame acknowledging every tracked number ≤ largest, built independently from the set
+                                    if !complete {
+                                        let set: BTreeSet<u64> = tracked.iter().cloned().collect();
+                                        let (fl, ff, frs) = frame_of_set(&set);
+                                        let full = AckFrame::new(vi(fl), vi(delay), vi(ff), frs.iter().map(|&(g, a)| (vi(g), vi(a))).collect(), None).encoding_size();
+                                    if cap > full {
+                                        self.sink.monitor_fail("ack_incomplete_with_room", &format!("capacity {} > {} = size of the complete frame, but tracked received numbers ≤ {} are missing from the frame", cap, full, largest));
+                                    } else if cap == full {
+                                        self.sink.monitor_fail("ack_incomplete_exact_fit", &format!("capacity {} = size of the complete frame, but the frame L={} first={} ranges={} leaves tracked received numbers out (last range needs capacity > size)", cap, largest, f.first_range(), pairs_str(&rs)));
+                                    }
                                     }
                                 } else { self.sink.branch("gen:largest_not_received"); }
                             }
